@@ -8,8 +8,7 @@ Model: `LasioModel/Reader.lean` (`findSections`, `sectionType`, `itemsLoop`, `ot
 
 A DOCUMENT is `pre ++ flat secs`: lines before the first title, then sections `(title line, body lines)`.
 `WellFormed secs`: title lines are title lines (their `strip()` starts with '~'), body lines are not.
-`NoIndent secs`: title lines start with '~' themselves (the ~Other loop tests the raw line; indented titles are
-modelled, and compared with the real code by the harness, but are outside the property).
+Titles may be indented (every loop recognises title lines after stripping).
 `docSection` / `docSections` (Lemmas/ReaderLemmas.lean) read a section from its own (title, body) alone — parser from
 the title and the provisional version, `bodyRun` = every body line on its own, `finishItems`/`finishOther` of the model.
 
@@ -118,40 +117,37 @@ example : (itemsLoop ⟨false, .upper⟩ ⟨.metadata, .well, valueDescr, []⟩ 
     ["A.M 1 : a\n".toList, "B.M 2 : b\n".toList] 0).toOption
     = some [⟨"A".toList, "M".toList, "1".toList, "a".toList⟩] := by decide +kernel
 
-/-- OTHER LOOP. Started AT the (un-indented) title line of a ~Other section with body `body`, the loop returns the
+/-- OTHER LOOP. Started AT the title line (indented or not) of a ~Other section with body `body`, the loop returns the
 stripped body lines, all of them, once each, and nothing from the following sections. -/
 theorem C05_other_loop (t : Str) (body rest : List Str) (first : Nat)
-    (ht : startsTilde t = true) (hb : ∀ b ∈ body, isTitle b = false) :
+    (ht : isTitle t = true) (hb : ∀ b ∈ body, isTitle b = false) :
     readOther (t :: body ++ rest) first (first + body.length) = joinWith ['\n'] (body.map lineStrip) := by
   unfold readOther
-  rw [otherLoop_section t body rest first ht (fun x hx => by
-    cases h : startsTilde x with
-    | false => rfl
-    | true => have := isTitle_of_startsTilde x h; rw [hb x hx] at this; cases this)]
+  rw [otherLoop_section t body rest first ht hb]
 
-/-- the hypothesis "not indented" is needed: with an indented title the loop takes the title for text and drops the
-last line (the harness compares this behaviour with the real code; the property does not quantify over it) -/
+/-- an indented title (fixed finding: the loop used to test the raw line, stored the title as text and dropped the
+last line) -/
 theorem C05_other_loop_indented :
-    readOther [" ~O\n".toList, "a\n".toList, "b\n".toList] 0 2 = "~O\na".toList := by decide +kernel
+    readOther [" ~O\n".toList, "a\n".toList, "b\n".toList, "~W\n".toList] 0 2 = "a\nb".toList := by decide +kernel
 
 /-! ### reading a rendered document = reading its sections one by one -/
 
-/-- For a well-formed, un-indented document the section loop of `read` is `docSections`: every section is read from
+/-- For a well-formed document the section loop of `read` is `docSections`: every section is read from
 its own title and body lines only — no line is dropped, duplicated or read as part of a neighbouring section. -/
 theorem C05_read_rendered (o : ReadOpts) (pre : List Str) (secs : List (Str × List Str)) (st : RState)
-    (hpre : ∀ x ∈ pre, isTitle x = false) (hw : WellFormed secs) (hi : NoIndent secs) :
+    (hpre : ∀ x ∈ pre, isTitle x = false) (hw : WellFormed secs) :
     processSections o (pre ++ flat secs) (findSections (pre ++ flat secs)) st = docSections o secs pre.length st := by
   rw [C05_windows pre secs hpre hw]
-  exact processSections_doc o (pre ++ flat secs) secs pre.length st (by simp) hw hi
+  exact processSections_doc o (pre ++ flat secs) secs pre.length st (by simp) hw
 
 theorem C05_read_rendered_lines (o : ReadOpts) (pre : List Str) (secs : List (Str × List Str))
-    (hpre : ∀ x ∈ pre, isTitle x = false) (hw : WellFormed secs) (hi : NoIndent secs) (hne : secs ≠ []) :
+    (hpre : ∀ x ∈ pre, isTitle x = false) (hw : WellFormed secs) (hne : secs ≠ []) :
     readLines o (pre ++ flat secs) =
       match docSections o secs pre.length RState.init with
       | .error e => .error e
       | .ok st => finishRead st := by
   unfold readLines
-  have := C05_read_rendered o pre secs RState.init hpre hw hi
+  have := C05_read_rendered o pre secs RState.init hpre hw
   rw [C05_windows pre secs hpre hw] at this ⊢
   cases secs with
   | nil => exact absurd rfl hne
@@ -207,7 +203,7 @@ theorem C05_routing_perm (o : ReadOpts) (secs₁ secs₂ : List (Str × List Str
 /-- … for whole files: the document `pre ++ [~V section] ++ secs₁` and the one with the sections after ~V permuted. -/
 theorem C05_routing_perm_file (o : ReadOpts) (pre : List Str) (v : Str × List Str) (secs₁ secs₂ : List (Str × List Str))
     (stv r₁ : RState)
-    (hpre : ∀ x ∈ pre, isTitle x = false) (hw : WellFormed (v :: secs₁)) (hi : NoIndent (v :: secs₁))
+    (hpre : ∀ x ∈ pre, isTitle x = false) (hw : WellFormed (v :: secs₁))
     (hp : secs₁.Perm secs₂) (hV : ∀ tb ∈ secs₁, isV tb = false)
     (hW : ∀ x ∈ secs₁, ∀ y ∈ secs₁, isW x = true → isW y = true → x = y)
     (hv : docSection o pre.length v RState.init = .ok stv)
@@ -220,13 +216,8 @@ theorem C05_routing_perm_file (o : ReadOpts) (pre : List Str) (v : Str × List S
     rcases List.mem_cons.mp hx with rfl | hx
     · exact hw _ List.mem_cons_self
     · exact hw x (List.mem_cons_of_mem _ (hp.mem_iff.mpr hx))
-  have hi₂ : NoIndent (v :: secs₂) := by
-    intro x hx
-    rcases List.mem_cons.mp hx with rfl | hx
-    · exact hi _ List.mem_cons_self
-    · exact hi x (List.mem_cons_of_mem _ (hp.mem_iff.mpr hx))
-  rw [C05_read_rendered o pre (v :: secs₁) RState.init hpre hw hi] at h₁
-  rw [C05_read_rendered o pre (v :: secs₂) RState.init hpre hw₂ hi₂]
+  rw [C05_read_rendered o pre (v :: secs₁) RState.init hpre hw] at h₁
+  rw [C05_read_rendered o pre (v :: secs₂) RState.init hpre hw₂]
   simp only [docSections, hv] at h₁ ⊢
   exact C05_routing_perm o secs₁ secs₂ _ _ stv r₁ hp hV hW hK h₁
 
@@ -244,7 +235,7 @@ def exDoc : List (Str × List Str) :=
   [("~V\n".toList, ["VERS. 2.0 : v\n".toList, "WRAP. NO : w\n".toList]),
    ("~p\n".toList, ["NULL. 5 : planted\n".toList]),
    ("~Tops\n".toList, []),
-   ("~other\n".toList, ["  free text \n".toList]),
+   ("  ~other\n".toList, ["  free text \n".toList]),
    ("~w\n".toList, ["# c\n".toList, "NULL. -999.25 : n\n".toList])]
 
 example : WellFormed exDoc := by
@@ -252,10 +243,6 @@ example : WellFormed exDoc := by
   simp only [exDoc, List.mem_cons, List.not_mem_nil, or_false] at htb
   rcases htb with rfl | rfl | rfl | rfl | rfl <;> decide +kernel
 
-example : NoIndent exDoc := by
-  intro tb htb
-  simp only [exDoc, List.mem_cons, List.not_mem_nil, or_false] at htb
-  rcases htb with rfl | rfl | rfl | rfl | rfl <;> decide +kernel
 
 example : findSections (flat exDoc) =
     [(0, 2, "~V".toList), (3, 4, "~p".toList), (5, 5, "~Tops".toList), (6, 7, "~other".toList), (8, 10, "~w".toList)] := by
